@@ -27,6 +27,7 @@ def random_model(rng):
     strand = rng.choice(["+", "-"])
     ng = rng.choice([1, 1, 2])
     n = 0
+    shared = rng.random() < 0.2     # the first transcript's exons also belong to the gene's second transcript (Parent=t0,t1): each transcript has its own introns
     both = rng.random() < 0.15      # exons that name their transcript AND its gene as Parent: related to the gene at level 1 and at level 2
     for g in range(ng):
         gid = "g%d" % g
@@ -61,6 +62,12 @@ def random_model(rng):
                 hi += 2          # blocks do not span the transcript: bed12 must raise
             tx.append((G.feat("mRNA", lo, hi, [("ID", [tid]), ("Parent", [gid])] + ([("Name", ["n" + tid])] if rng.random() < 0.5 else []), strand=strand,
                               score=rng.choice([".", "7"])), ex, cds))
+        if shared and len(tx) == 2:
+            # the second transcript consists of the first one's exon records (no exons of its own: equal starts would tie)
+            t1 = "t%d_1" % g
+            for x in tx[0][1]:
+                x["attrs"] = [[k, (vs + [enc(t1)]) if dec(k) == "Parent" else vs] for k, vs in x["attrs"]]
+            tx[1] = (tx[1][0], [], [])
         lo = min(t[0]["start"] for t in tx)
         hi = max(t[0]["end"] for t in tx)
         block = [G.feat("gene", lo, hi, [("ID", [gid])], strand=strand)]
